@@ -24,15 +24,27 @@ func init() {
 			"time stamps of two testdrv sessions may differ by one constant (the driver mixes the real and its virtual clock when a session starts); the monitor requires the difference to be the same for every retained message and below 60 s",
 			"domain is the well-formed C04 domain, as the quantifier says",
 		},
-		Require: []string{"sessions_l1", "sessions_l2", "filtered:sense", "filtered:clock", "filtered:sysex", "retained_messages_compared"},
-		Run:     runC14,
+		Require:         []string{"sessions_through_clock_zero", "sessions_l1", "sessions_l2", "filtered:sense", "filtered:clock", "filtered:sysex", "retained_messages_compared"},
+		FakeTimeWorkers: 1,
+		Run:             runC14,
 	})
 }
 
+// c14PreListen > 0 (virtual-clock workers): every session starts with a driver that is that much older
+// than the listener and without advancing the driver's clock first: the time stamps run from
+// -c14PreListen upwards through -1, 0, 1.
+var c14PreListen time.Duration
+
 func c14Session(level int, cfg liveCfg, chunks [][]byte, deltas []int32) ([]obs, error) {
 	l := newL2()
+	if c14PreListen > 0 {
+		l.preListen, l.noBase = c14PreListen, true
+	}
 	if level == 2 {
 		return l.run(cfg, chunks, deltas)
+	}
+	if l.preListen > 0 && mon.FakeTime {
+		time.Sleep(l.preListen)
 	}
 	var got []obs
 	cur := 0
@@ -42,7 +54,9 @@ func c14Session(level int, cfg liveCfg, chunks [][]byte, deltas []int32) ([]obs,
 	if err != nil {
 		return nil, err
 	}
-	l.drv.Sleep(l2Base)
+	if !l.noBase {
+		l.drv.Sleep(l2Base)
+	}
 	for i, ch := range chunks {
 		cur = i
 		l.drv.Sleep(time.Duration(deltas[i]) * time.Millisecond)
@@ -114,6 +128,40 @@ func c14Check(c *mon.Ctx, stream []byte, chunks [][]byte, deltas []int32, buf ui
 }
 
 func runC14(c *mon.Ctx) {
+	// sessions whose time stamps pass through zero one millisecond at a time (virtual process clock: the
+	// driver is created exactly 25..60 ms before the listener): special time stamp values such as -1 and 0
+	// are reached by messages of every class
+	c.EachFT("around-clock-zero", c.N(400, 30_000), func(i int64, r *mon.Rand) {
+		c14PreListen = time.Duration(r.Range(25, 60)) * time.Millisecond
+		defer func() { c14PreListen = 0 }()
+		lc := liveCfg{true, true, true, uint32(r.Pick(0, 16))}
+		msgs := gen.LiveSequence(r, r.Range(20, 45), lc.bufSize(), true)
+		for k := range msgs { // plenty of filterable messages
+			if r.P(1, 3) {
+				msgs[k] = [][]byte{{0xF8}, {0xFE}, {0xF0, 0x7D, byte(k & 127), 0xF7}}[r.Intn(3)]
+			}
+		}
+		w := gen.Serialize(r, msgs, gen.SerOpts{RunningStatus: true, Realtime: r.P(1, 2)})
+		// one message per call where possible, 1 ms apart (sometimes 0 or 2)
+		var chunks [][]byte
+		var deltas []int32
+		last := 0
+		for k := range w.EndIdx {
+			if end := w.EndIdx[k] + 1; end > last {
+				chunks = append(chunks, w.Bytes[last:end])
+				deltas = append(deltas, int32(r.Pick(1, 1, 1, 1, 0, 2, 3)))
+				last = end
+			}
+		}
+		if last < len(w.Bytes) {
+			chunks = append(chunks, w.Bytes[last:])
+			deltas = append(deltas, 1)
+		}
+		c14Check(c, w.Bytes, chunks, deltas, lc.buf)
+		c.Count("sessions_through_clock_zero", 1)
+		c.DistinctBytes(w.Bytes, []byte(fmt.Sprint(deltas, c14PreListen)))
+	})
+
 	nk := len(c04Kinds)
 	// core: all ordered pairs of the 16 kinds (contain F8, FE and two sysex shapes), whole and byte-wise
 	c.Each("pairs", int64(nk*nk), func(i int64, _ *mon.Rand) {
